@@ -633,6 +633,9 @@ func generate() (list []*scenario, lattice map[string]int) {
 	// (4) the env lattice
 	for _, ec := range envCases() {
 		for pos := 0; pos < 3; pos++ {
+			if ec.Decoy && pos != 0 {
+				continue // relative dotenv paths: the target has to sit in the root directory
+			}
 			if add(&scenario{Family: "env", Pos: pos, Name: "PE_" + name[3:], Env: ec, Uniform: true}) {
 				lattice[fmt.Sprintf("env.pos%d", pos)]++
 			}
@@ -641,6 +644,9 @@ func generate() (list []*scenario, lattice map[string]int) {
 	// (5) name collisions between the env lattice and the vars lattice; quick:
 	// one position per scenario (round-robin), thorough: all three
 	for i, ec := range envCollisions() {
+		if ec.Decoy {
+			continue
+		}
 		for pos := 0; pos < 3; pos++ {
 			if !h.Thorough() && pos != i%3 {
 				continue
